@@ -330,6 +330,7 @@ def static_scan(src):
     """Every input access of JSON.cc's parser goes through a StringReader member function: inside the three parse
     overloads and skip_whitespace_and_comments the reader `r` is only used as `r.<method>(`, passed on as `r`, or declared."""
     text = src.text(JS)
+    findings = []
     for sig in (SKIP_SIG, PARSE_SIG, CSTR_SIG, STR_SIG):
         header, body, _, _ = lex.find_def(text, sig, 'function')
         m = lex.mask(body)
@@ -340,13 +341,14 @@ def static_scan(src):
                   (re.match(r'(, [^();]*)?\)', after) and re.search(r'(JSON::parse|skip_whitespace_and_comments)\($', before)) or
                   (re.match(r'\(s, size\);', after) and re.search(r'StringReader $', before)))
             if not ok:
-                raise ExtractionBreak('%s: the reader is used other than through its bounds-checked member functions: ...%s' % (JS, (before + 'r' + after).replace('\n', ' ')))
-        if re.search(r'reinterpret_cast|\bpeek\b|\bp?getv\b|->|\bmemcpy\b|\*\s*\(', m):
-            raise ExtractionBreak('%s: raw pointer / member access inside %s' % (JS, sig))
+                findings.append('the reader is used other than through its bounds-checked member functions: ...%s...' % ' '.join((before + 'r' + after).split()))
+        mo = re.search(r'reinterpret_cast|\bpeek\b|\bp?getv\b|->|\bmemcpy\b|\*\s*\(', m)
+        if mo:
+            findings.append('raw pointer / member access (%s) inside %s' % (mo.group(0), ' '.join(header.split())[:60]))
+    return findings
 
 
 def json_unit(ctx, src, loops):
-    static_scan(src)
     text = src.text(JS)
     _, pbody, _, _ = lex.find_def(text, PARSE_SIG, 'function')
     for kind, (intro, lit) in BLOCKS.items():
@@ -573,13 +575,26 @@ def plan(ctx):
     src = Source(ctx.src)
     core = rw_common.reader_core(ctx, src)
     core.write()
-    units = json_unit(ctx, src, LOOPS)
+    # supporting static fact, reported like an obligation: the parser touches its input only through bounds-checked reader members
+    findings = static_scan(src)
+    us = Unit(ctx, 'json_scan')
+    us.raw('#define C05_READER_ONLY_THROUGH_MEMBERS %d\n#define C05_SCAN_FINDING "%s"' % (0 if findings else 1, '; '.join(findings).replace('\\', '/').replace('"', "'")[:400]))
+    us.write(suffix='.h', scan=False)
+    scan_group = Group(name='JSON.parse.reader-access[static]', harness='harness/C05/scan.c', entry='h_scan', kind='loop-free', min_post=1,
+                       function='JSON::parse (three overloads), skip_whitespace_and_comments: static scan of the source text',
+                       clause_note='no raw pointer into the input, no peek / getv / memcpy on the reader: every access is a call of a StringReader member that is under the C02 contracts')
+    try:
+        units = json_unit(ctx, src, LOOPS)
+    except ExtractionBreak:
+        if findings:
+            return [scan_group]       # the rest of the unit cannot be lowered around a raw access; the scan finding itself is the verdict
+        raise
     ctx.functions_under_contract = []
     for u in units:
         u.write()
         ctx.functions_under_contract += u.functions
     RP = lambda mode: Replay(driver='C05/json.cc', mode=mode, sources=ALL_LIB, small_define='VERIF_SMALL')
-    groups = []
+    groups = [scan_group]
     U = {u.name[5:]: u for u in units}
     CALLEES = READER_FNS + ['value_for_hex_char', 'skip_whitespace_and_comments', 'JSON_parse_dict', 'JSON_parse_list', 'JSON_parse_number',
                             'JSON_parse_string', 'JSON_parse_cstr', 'JSON_parse']
